@@ -2,9 +2,11 @@ package checks
 
 import (
 	"fmt"
+	"os"
 	"regexp"
 	"strconv"
 	"strings"
+	"time"
 
 	"github.com/gogpu/naga"
 
@@ -599,9 +601,22 @@ func c11Check(r *explore.Run, s *c11Seed, e c11Edit) {
 
 func runC11() int {
 	r := explore.New("C11")
+	if r.Thorough() {
+		r.SetDeadline(45 * time.Minute)
+	}
+	if d, err := strconv.Atoi(os.Getenv("VERIF_C11_DEADLINE_S")); err == nil && d > 0 { // authoring aid: smoke-test a tier
+		r.SetDeadline(time.Duration(d) * time.Second)
+	}
 	var seeds []*c11Seed
 	for _, m := range wgen.Micros {
 		seeds = append(seeds, analyse(m.Name, m.Src))
+	}
+	for _, m := range c11RichSeeds {
+		if c11Compile(m.Src).accepted {
+			seeds = append(seeds, analyse(m.Name, m.Src))
+		} else {
+			r.Skip("rich seed program is not accepted (not used as a seed)")
+		}
 	}
 	f1 := wgen.F1()
 	for i := 0; i < f1.Count; i += 173 {
@@ -632,12 +647,21 @@ func runC11() int {
 	}
 	r.Extra("edits_per_rule", perRule)
 	r.ParallelFor(len(jobs), func(i int) { c11Check(r, jobs[i].s, jobs[i].e) })
+	r.Count("offenders_seed_edits", int64(len(jobs)))
+	runC11G(r)
 	if len(jobs) > 0 {
 		j := jobs[len(jobs)/3]
 		r.Sample(map[string]any{"seed": j.s.name, "rule": j.e.rule, "site_offset": j.e.site})
 	}
 	printKeys(r)
-	return r.Finish("every (seed, rule, site) triple: for each seed (micro-programs, F1/F2 representatives) each diagnosed rule is broken at every syntactic site where it applies (identifier uses, type uses, call sites incl. one argument dropped/added/retyped, member accesses, swizzles, every statement and declaration position for @must_use discards and const_assert false, every resource attribute, every array size, every mandatory ';', every delimiter, @workgroup_size, every const-expression integer literal for /0 and %0). Oracle: naga.Compile returns an error and no output; the line:column prefix lies inside the source; for semantic rules inside the module-scope declaration containing the site; for ';' and ')'/']' deletions whose first offending token is determined by construction, exactly that token. distinct = distinct rules exercised",
+	return r.Finish("(1) every (seed, rule, site) triple: for each seed (micro-programs, F1/F2 representatives, a program holding every declaration and statement kind) each diagnosed rule is broken at every syntactic site where it applies (identifier uses, type uses, call sites incl. one argument dropped/added/retyped, member accesses, swizzles, every statement and declaration position for @must_use discards and const_assert false, every resource attribute, every array size, every mandatory ';', every delimiter, @workgroup_size, every const-expression integer literal for /0 and %0). "+
+		"(2) generated family C11G = rule x host position x enclosing function x declaration order: complete programs assembled from templates, each with exactly one offending construct at a known byte offset inside a known module-scope declaration. Function-scope hosts = statement form with a hole (g_forms: let/var/const initialisers, assignment and compound-assignment sides, if/else-if/while/for-init/-condition/-update/break-if/switch-selector/case-selector headers, return values, user-call/nested-call/builtin/select/constructor/conversion/bitcast arguments, array indices on both sides incl. ++/--, &arr[E], *p, pointer arguments, binary/unary/&&/|| operands, phony assignment, local array sizes, const_assert operands, statement holes, type holes) x block context (g_block_contexts: function body, then/else/else-if/2nd else-if, while/for/loop bodies, continuing with and without break-if, every switch-clause position incl. default first/last/mixed, nested blocks 1-3 deep, and all 10x10 depth-2 compositions for the basic forms; thorough: depth-2 for every form, depth-3 for the basic ones) x position first/middle/last (all three for statement holes, rotating otherwise) x {entry point, helper declared before its caller, helper declared after its caller} x {support declarations before, after the functions} x construct group (undeclared identifier incl. names that exist in another function or as a struct member; unknown function; user calls with one argument too few/too many/retyped for i32, f32, vector, struct and pointer parameters; unknown member on let/var/global/parameter/returned/constructed/nested struct values; swizzles mixing xyzw/rgba, longer than 4, beyond the vector width; constant division/remainder by zero written with literals, folded zeros, module and local constants, i32 and u32; @must_use discards; false const_assert; statement calls; unknown types and non-positive array sizes written as literals, expressions, constants, nested element types). Light groups (vector/struct/pointer calls, local member and swizzle groups, literal division) are placed in one third of the (form, context) hosts in the quick tier. "+
+		"Module-scope hosts (g_module_hosts: const/var<private>/override initialisers, array sizes in alias/struct member/var/parameter, @workgroup_size x/y/z, @group/@binding/@location/@align/@size arguments, const_assert, and every type position: alias, struct member, private/workgroup/storage var, parameter, return type, pointer pointee, constructor, array element) x order of the offending declaration relative to its users (alone, before all users, between two users, after its users). @group without @binding and vice versa x 9 resource kinds x 5 orders relative to the entry points using the resource; compute entry point without @workgroup_size in 12 layouts. "+
+		"(3) scope pairs: for every skeleton (one control-flow construct, every construct nested in every child scope of every construct; thorough: chains of three) every ordered pair (declaration slot d, use slot u or a peer function) x {let, var, const} x {value use, store} x function kind; the WGSL scoping rule decides visibility; visible pairs are controls, all others must be rejected. "+
+		"(4) the ';' and delimiter deletions of (1) applied to the host function of every generated host program. "+
+		"Every host is validated by a control (same host, harmless construct of the same group) that must be accepted, otherwise the host is counted as not live and not judged (g_dead_controls). Oracle: naga.Compile returns an error and no output; the line:column lies inside the source; for semantic rules inside the module-scope declaration containing the offending construct; for ';' and ')'/']' deletions whose first offending token is determined by construction, exactly that token. distinct = distinct (family, rule, construct variant) classes exercised",
 		[]string{"sites are found with an independent tokenizer; seeds are ASCII so that line:column maps to byte offsets unambiguously",
-			"exact-token positions are demanded only where the grammar determines them; other delimiter deletions only require an in-bounds position not before the edit"})
+			"exact-token positions are demanded only where the grammar determines them; other delimiter deletions only require an in-bounds position not before the edit",
+			"a generated host whose valid control is rejected is not a C11 matter (it is counted and listed in g_dead_controls); a scope pair that WGSL declares visible and naga rejects is likewise only counted",
+			"the expectation for every generated case comes from the WGSL rules the generator encodes (scoping, const-expression contexts, call signatures), never from naga's messages"})
 }
